@@ -1,3 +1,5 @@
+import AdeuModel.Lemmas.RevIds
+import AdeuModel.Lemmas.ComGrow
 import AdeuModel.Lemmas.Engine
 import AdeuModel.Lemmas.Attr
 import AdeuModel.Lemmas.AttrHistory
@@ -58,5 +60,22 @@ theorem C09_comment_parts (s : Sess) (text : Str) (parent : Option Str) :
 theorem C09_deltext_only_in_del (r : Run) (rev : Rev) :
     deleteRunNodes [.run r] ⟨0, none⟩ rev = [.del rev [r.deleted]] := by
   simp [deleteRunNodes, replaceRun]
+
+/-- The id of a mark a run adds differs from the id of **every** mark the opened document carries in the stories
+the engine reaches - numeric or not: the new id is a decimal numeral above every numeral found at load, and a numeral
+reads back as its number. -/
+theorem C09_new_ids_differ_from_old (d : Document) (author date : Str) (edits : List HEdit) (x : Rev)
+    (hx : x ∈ revsDoc (Doc.applyEdits (Sess.open d author date) edits).1.doc)
+    (hnew : x ∉ revsDoc (Sess.open d author date).doc) :
+    ∀ bs ∈ docParts (normalize d), ∀ n ∈ allNodesBlocks bs, ∀ rev, revOf n = some rev → rev.id ≠ x.id :=
+  new_ids_differ_from_old d author date edits x hx hnew
+
+/-- The comments part keeps pairwise distinct ids (one `w:comment` per id) after any batch. -/
+theorem C09_comment_ids_stay_unique (d : Document) (author date : Str) (edits : List HEdit)
+    (hn : ((normalize d).comments.map (·.id)).Nodup) :
+    ((Doc.applyEdits (Sess.open d author date) edits).1.doc.comments.map (·.id)).Nodup :=
+  comment_ids_stay_unique d author date edits hn
+
+example : strNat? (natStr 41) = some 41 := strNat?_natStr 41
 
 end Adeu.Props.C09
